@@ -869,8 +869,9 @@ class FuncEmitter:
                 mN = re.fullmatch(r'\(\(uint64_t\)(\d+)ULL\)', args[2].c)
                 if d0 and s0 and mN and d0[1].key() == s0[1].key() and d0[1].to.kind in ('named', 'struct', 'array'):
                     N = int(mN.group(1)); ty = d0[1].to
+                    lvm = getattr(self, 'lv', {})
                     if N == self.sizeof(ty):
-                        self.emit('*%s = *%s; /* typed memcpy %d */' % (d0[0], s0[0], N)); return
+                        self.emit('%s = %s; /* typed memcpy %d */' % (lvm.get(d0[0], '*' + d0[0]), lvm.get(s0[0], '*' + s0[0]), N)); return
                     rt_ = self.resolve(ty)
                     if rt_.kind == 'struct':
                         offs = self.offsets(rt_)
@@ -878,7 +879,7 @@ class FuncEmitter:
                         if N in ends:
                             k = ends.index(N)
                             for j in range(k + 1):
-                                self.emit('(*%s).f%d = (*%s).f%d; /* typed memcpy %d (tail padding excluded) */' % (d0[0], j, s0[0], j, N))
+                                self.emit('%s.f%d = %s.f%d; /* typed memcpy %d (tail padding excluded) */' % (lvm.get(d0[0], '(*%s)' % d0[0]), j, lvm.get(s0[0], '(*%s)' % s0[0]), j, N))
                             return
             if fn.startswith('llvm.memset'):
                 org = getattr(self, 'origin', {})
